@@ -334,6 +334,9 @@ static void gen_case(Out& out, Rng& g) {
     else S = 1000;
     static const int64_t SPANS[4] = {30, 120, 1000, 20000};
     int64_t span = SPANS[g.below(S == 1000 ? 2 : 4)];
+    // edges longer than 2^31.5 grid units: the squared length of an edge vector no longer fits 64-bit integers (unit normals have to
+    // be formed in floating point)
+    if (S == 1 && g.chance(6)) span = (int64_t)1 << 33;
     std::string scen;
     int join = (int)g.below(3);
     bool uni = g.chance(22);
